@@ -250,3 +250,8 @@ def observable(case, impl, model, dbg):
     if op == "from_char":
         return _fits(_zval(toks[-1]), w * n, False)
     return True
+
+
+def prebuild(root):
+    """translator: regenerate coq/Generated/Loops.v from /repo/src (from_uint! is proved equal to the model in Proofs/LoopsTieC13.v)"""
+    return run_translator(root, "rs2v_loops.py", "C13")
